@@ -63,7 +63,8 @@ def run_checks(diff, props, tier="quick"):
             if out[p]["result"].startswith("error"): out[p]["tail"] = o[-400:]
     finally:
         shutil.rmtree(d, ignore_errors=True)
-        for a in glob.glob(os.path.join(V, "build", "alt-*")): shutil.rmtree(a, ignore_errors=True)
+        import hashlib
+        shutil.rmtree(os.path.join(V, "build", "alt-" + hashlib.sha1(d.encode()).hexdigest()[:8]), ignore_errors=True)   # (only this run's own output directory)
     return out
 
 def do_import(outdir, prop):
